@@ -209,7 +209,8 @@ def _elem_index_of(m, term, depth=0):
                         base["#"] = base.get("#", 0) + k[1]
                         return {a: b for a, b in base.items() if b}
             return None
-        if p.endswith("Option::<T>::map") or p.endswith("Option::<T>::copied") or p.endswith("Option::<T>::unwrap"):
+        if p.endswith(("Option::<T>::map", "Option::<T>::copied", "Option::<T>::unwrap", "Option::<T>::filter", "Option::<T>::as_mut",
+                       "Option::<T>::as_ref", "Option::<T>::as_deref_mut", "Option::<T>::cloned", "Option::<T>::expect")):
             return _elem_index_of(m, t[2][0], depth + 1) if t[2] else None
     if t[0] == "local" and isinstance(t[2], int) and t[2] > m.arg_count:
         e = m.expand(t, depth=1)
@@ -650,6 +651,10 @@ def _tag_evidence(prog, m, idx, bb):
             equal_ok = any(v == eq_idx for v, _ in taken)
         elif (t.get("discr_ty") or "") == "bool":
             equal_ok = any(v == "otherwise" for v, _ in taken) and t["values"] == ["0"]
+        elif sd and sd[2] == "assign" and sd[3]["k"] == "discr" and "Option<" in ((m.local_ty_str(sd[3]["p"]["l"]) or "") if not sd[3]["p"]["proj"] else ""):
+            # `match ops.get_mut(j).filter(|op| op.tag() == DiffTag::Equal) { Some(next) => next.grow_left(..), None => .. }`:
+            # the Some edge of an Option that a tag-testing `filter` produced
+            equal_ok = any(v == "1" for v, _ in taken) or (any(v == "otherwise" for v, _ in taken) and t["values"] == ["0"])
         has_tag = False
         has_eq_text = tag_switch
         loops_of_bb = [body for h, body in m.loops() if bb in body]
